@@ -8,7 +8,7 @@ VERIF = '/verif'
 WORK = os.path.join(VERIF, '.work')
 
 # which direct predicate belongs to which property
-DIRECT_OWNER = {'immut': 'C07', 'repeat': 'C05', 'string_same': 'C05', 'history': 'C05',
+DIRECT_OWNER = {'immut': 'C07', 'repeat': 'C05', 'string_same': 'C05', 'tree_same': 'C05', 'history': 'C05',
                 'json': 'C10', 'evalbytes': 'C10', 'jsonself': 'C11', 'errwf': 'C08', 'usable': 'C08', 'must': 'C08'}
 
 def load_known():
@@ -100,6 +100,8 @@ def known_match(known, pid, case, what):
         if k.get('kind') and k['kind'] not in what:
             continue
         if k.get('expr_regex') and not re.search(k['expr_regex'], case.get('expr', '')):
+            continue
+        if k.get('what_regex') and not re.search(k['what_regex'], what):
             continue
         return k
     return None
@@ -251,7 +253,7 @@ class Check:
                     self.failing_case(case, r, st + ': ' + detail[:300])
                 else:
                     self.stats['panic_blamed_elsewhere'] += 1
-            elif st == 'disagree' and value_compare:
+            elif st == 'disagree' and value_compare and 'novalue' not in case.get('tags', []):
                 self.failing_case(case, r, 'disagree: ' + detail)
             elif st == 'inconclusive':
                 self.inconclusive[detail[:60]] += 1
